@@ -9,7 +9,48 @@ import re
 
 from .. import defs
 from ..common import pmap
-from ..sandbox import Sandbox, parse_status_table, parse_submission
+from ..sandbox import Sandbox, parse_status_table, parse_submission, parse_summary
+
+STATUS_NAMES = ["shouldrun", "submitted", "running", "completed", "failed", "cancelled"]
+
+
+def status_filters(sb, scn, perm, inv, rng, sub, k=3):
+    """`gwf status` under k seeded combinations of -s, --endpoints, names and -f."""
+    out = []
+    T = sorted(scn["T"])
+    for _ in range(k):
+        sts = rng.sample(STATUS_NAMES, rng.choice([0, 0, 1, 1, 2, 3]))
+        ep = rng.random() < 0.35
+        names = rng.sample(T, rng.choice([0, 0, 1, 2, len(T)]))
+        fmt = rng.choice(["default", "default", "summary"])
+        args = ["status"]
+        for st in sts:
+            args += ["-s", st]
+        if ep:
+            args.append("--endpoints")
+        if fmt == "summary":
+            args += ["-f", "summary"]
+        if names and len(names) == len(T) and rng.random() < 0.5:
+            args.append("*")
+        else:
+            args += [perm[t] for t in names]
+        r = sb.gwf(args, sub=sub)
+        f = {"sts": sts, "ep": ep, "names": names, "fmt": fmt, "ok": r.exit_code == 0 and r.exc is None, "rows": {}, "counts": {}, "args": args[1:]}
+        if f["ok"]:
+            if fmt == "default":
+                table, bad = parse_status_table(r.stdout)
+                f["rows"] = {inv.get(n, n): v for n, v in table.items()}
+            else:
+                f["counts"], bad = parse_summary(r.stdout)
+                f["counts"] = {st: f["counts"].get(st, -1) for st in STATUS_NAMES}
+            if bad:
+                f["ok"] = False
+                f["why"] = "unparsed lines %r" % bad[:2]
+        else:
+            f["why"] = "exit %s: %s %r" % (r.exit_code, (r.stderr or "")[-200:], r.exc)
+        out.append(f)
+    return out
+
 
 _SB = None
 
@@ -119,6 +160,9 @@ def drive_cli(item):
         obs["has_status"] = set(obs["status"]) == set(scn["T"])
         if not obs["has_status"]:
             errs.append("status table lists %s" % sorted(obs["status"]))
+    obs["filt"] = status_filters(sb, scn, perm, inv, random.Random(variant + 5), sub) if scn.get("filters", True) else []
+    sb.new_calls()
+    snap1 = sb.digest()
     r = sb.gwf(["run", "--dry-run"] + sel, sub=sub)
     c2 = sb.new_calls()
     snap2 = sb.digest()
